@@ -470,6 +470,11 @@ def rule_roles(ctx):
     data_p, bc_p, und_p = f.params[1], f.params[2], f.params[3]
     args = [dotted(a) for a in c.args]
     kw = {k.arg: dotted(k.value) for k in c.keywords}
+    # normalise keyword passing to the positional order of matrix_product
+    order = ["array1", "array2", "unit_axis_1", "unit_axis_2"]
+    for i, nm in enumerate(order):
+        if len(args) == i and nm in kw:
+            args.append(kw[nm])
     mk = kw.get("broadcast", args[4] if len(args) > 4 else None)
     # matrix local derives from self.matrix / self.proj_data
     mat_defs = [n for n in ast.walk(f.node) if isinstance(n, ast.Assign)
